@@ -61,6 +61,65 @@ type c16Vec struct {
 	W       string    `json:"w"`
 	RecvObj []c16Pair `json:"recvobj"`
 	CopyObj []c16Pair `json:"copyobj"`
+	// pluckj: an arrangement of o, p = o.pluck(keys), o.d, p.d and what json() of it must parse to
+	Shape *c16Tree `json:"shape"`
+	Want  *c16Tree `json:"want"`
+}
+
+// c16Tree: an arrangement (leaf o|p|od|pd, arr, obj) or its unfolding (pairs, val, arr, obj) (MC_Methods.Unfold).
+type c16Tree struct {
+	T     string     `json:"t"`
+	X     string     `json:"x,omitempty"`
+	Keys  []string   `json:"keys,omitempty"`
+	Items []*c16Tree `json:"items,omitempty"`
+	Pairs []c16Pair  `json:"pairs,omitempty"`
+	Val   *c05Val    `json:"val,omitempty"`
+}
+
+// c16TreeText writes an arrangement as an expression; leaf gives the text of a leaf.
+func c16TreeText(t *c16Tree, leaf map[string]string) string {
+	parts := make([]string, len(t.Items))
+	for i, it := range t.Items {
+		parts[i] = c16TreeText(it, leaf)
+		if t.T == "obj" {
+			parts[i] = t.Keys[i] + ": " + parts[i]
+		}
+	}
+	switch t.T {
+	case "leaf":
+		return leaf[t.X]
+	case "arr":
+		return "[" + strings.Join(parts, ", ") + "]"
+	case "obj":
+		return "{" + strings.Join(parts, ", ") + "}"
+	}
+	infra("C16: arrangement node %q", t.T)
+	return ""
+}
+
+// c16TreeWant: the value the JSON text must parse to (encoding/json's generic form).
+func c16TreeWant(t *c16Tree) any {
+	switch t.T {
+	case "pairs":
+		_, m := c16Pairs(t.Pairs)
+		return m
+	case "val":
+		return c16ValAny(c05Concrete(t.Val))
+	case "arr":
+		out := make([]any, len(t.Items))
+		for i, it := range t.Items {
+			out[i] = c16TreeWant(it)
+		}
+		return out
+	case "obj":
+		out := map[string]any{}
+		for i, it := range t.Items {
+			out[t.Keys[i]] = c16TreeWant(it)
+		}
+		return out
+	}
+	infra("C16: unfolded node %q", t.T)
+	return nil
 }
 
 // c16Case is one program with the observation the contract fixes.
@@ -88,6 +147,7 @@ type c16Case struct {
 	NoLen    bool           `json:"nolen,omitempty"`
 	NumbNull bool           `json:"numb_null,omitempty"`
 	NumbVal  float64        `json:"numb_val,omitempty"`
+	JSONWant any            `json:"json_want,omitempty"` // pluckj: what the text json() returns must parse to
 	Seeded   bool           `json:"seeded,omitempty"`
 }
 
@@ -329,7 +389,8 @@ func checkC16(c *Ctx) {
 	c.Assume("a write to a NESTED value reached through the plucked copy is not compared (pluck is a shallow copy)")
 	c.Assume("the sign of a zero result of floor/ceil/round/num is not compared (-0 equals 0)")
 	c.Assume("num() of a number, and every call outside the documented contract (other receiver kind, missing / extra / wrong-kind arguments): only 'a value or a runtime error, never a crash' is required")
-	c.Assume("json(): only absence of crashes (its output belongs to C04)")
+	c.Assume("json(): its output belongs to C04; here absence of crashes, and json() of every arrangement of a pluck result, its receiver and their shared members (one container reachable along several paths is not a cycle) must parse to the arrangement written out")
+	c.Assume("num() of the non-finite spellings inf / infinity / nan is not compared (the statement speaks of the nearest double)")
 	c.Assume("object keys that name a prototype method (length, pluck) are a separate vector class; length() of an object that has its own key `length` is not exercised")
 	c.Assume("objects are compared structurally (printed form parsed), never by key order (C10); printed strings are escape-free by construction")
 	c.Assume("numeric strings: decimal grammar only (Go's hex, inf/nan and underscore spellings are outside the model); magnitudes within 1e-300..1e300")
@@ -515,6 +576,17 @@ func checkC16(c *Ctx) {
 					return
 				}
 			}
+		case "pluckj":
+			var got any
+			dec := json.NewDecoder(bytes.NewReader(r.Stdout))
+			if err := dec.Decode(&got); err != nil || dec.More() {
+				fail("pluck-json", "json() of a value built from a pluck result and its receiver did not print one JSON text")
+				return
+			}
+			if !reflect.DeepEqual(got, cs.JSONWant) {
+				fail("pluck-json", fmt.Sprintf("json() gave %s, expected %s", c16JSON(got), c16JSON(cs.JSONWant)))
+				return
+			}
 		case "pluck", "proto":
 			p1, ok1 := c16ParseObj(rd.line())
 			o1, ok2 := c16ParseObj(rd.line())
@@ -687,6 +759,28 @@ func checkC16(c *Ctx) {
 				Prog: "BEGIN { x = " + c05Lit(x, "x") + "; " + body + " }"})
 			submit(c16Case{Fam: "num", Nums: want, Desc: fmt.Sprintf("floor/ceil/round of %v (document field)", x.F),
 				Prog: "{ " + strings.ReplaceAll(body, "x", "$.x") + " }", Doc: `{"x": ` + c05Fmt(x.F) + `}`})
+		case "pluckj":
+			olit, owant := c16Pairs(v.Obj)
+			keys := make([]string, len(v.Keys))
+			for i, k := range v.Keys {
+				keys[i] = string(symsToBytes(k))
+			}
+			// (through encoding/json and back: the generic form the comparison sees, whatever the tag went through)
+			var want any
+			if err := json.Unmarshal([]byte(c16JSON(c16TreeWant(v.Want))), &want); err != nil {
+				infra("C16: pluckj expectation: %v", err)
+			}
+			cs := c16Case{Fam: "pluckj", JSONWant: want}
+			arr := c16TreeText(v.Shape, map[string]string{"o": "o", "p": "p", "od": "o.d", "pd": "p.d"})
+			cs.Desc = fmt.Sprintf("o = %s; p = o.pluck(%s); json(%s)", olit, c16KeyArgs(keys), arr)
+			cs.Prog = "BEGIN { o = " + olit + "; p = o.pluck(" + c16KeyArgs(keys) + "); print json(" + arr + ") }"
+			submit(cs)
+			cs2 := cs
+			cs2.Desc += " (document field)"
+			cs2.Prog = "{ p = $.o.pluck(" + c16KeyArgs(keys) + "); print json(" +
+				c16TreeText(v.Shape, map[string]string{"o": "$.o", "p": "p", "od": "$.o.d", "pd": "p.d"}) + ") }"
+			cs2.Doc = `{"o": ` + c16JSON(owant) + `}`
+			submit(cs2)
 		case "pluck", "proto":
 			var res []c16Pair
 			if err := json.Unmarshal(v.Res, &res); err != nil {
@@ -916,7 +1010,7 @@ func checkC16(c *Ctx) {
 			cs := c16Case{Fam: "numb", Seeded: true, Desc: fmt.Sprintf("seeded: num(%q)", s),
 				Prog: "{ x = num($.s); print x; print x is number; print x is null }", Doc: c16JSON(map[string]string{"s": s})}
 			if f, ok := c05ParseNum([]byte(s)); ok {
-				if f != 0 && (math.Abs(f) < 1e-300 || math.Abs(f) > 1e300) {
+				if c05NonFinite(f) || (f != 0 && (math.Abs(f) < 1e-300 || math.Abs(f) > 1e300)) {
 					continue
 				}
 				cs.NumbVal = f
@@ -957,7 +1051,7 @@ func checkC16(c *Ctx) {
 		"every string of <= %d characters over {a, B, 1, U+00E9, U+01C5, U+2177, U+24B6, U+0345, U+03C9, U+4E16, U+10428} (length/upper/lower byte for byte, literal and document), "+
 		"every k/4 with |k| <= 22 and +-2^53 (floor/ceil/round, as variable and as document field), every key set over {a,b,c} x every key list of length <= 3 (pluck, literal and document), "+
 		"every key set x key list of length <= 2 x written object (copy / receiver) x written key x write (= += -= ++ -- prefix and postfix), both objects observed afterwards, "+
-		"key lists naming prototype methods, num() on 25 strings and on 60 digit strings of 1..23 digits (2^k and 10^k, each -1 / +0 / +1) x 45 numeric and 9 non-numeric decorations (signs, leading zeros, fractions, exponents), "+
+		"key lists naming prototype methods, json() of 9 arrangements of the receiver, the pluck result and their shared array / object member for every key set over {a,b,c,d} x key list of length <= 2 (the JSON text must parse to the arrangement written out), num() on 25 strings and on 60 digit strings of 1..23 digits (2^k and 10^k, each -1 / +0 / +1) x 45 numeric and 9 non-numeric decorations (signs, leading zeros, fractions, exponents), "+
 		"and every method/builtin x 13 receivers x 14 argument lists outside the contract (no crash); "+
 		"plus seeded random cases checked against the laws (incl. text over the case table, upper/lower character by character on arbitrary Unicode, num() on digit strings up to 30 places, pluck + one write); every case counts as non-trivial; distinct by program + document", maxLen, caseLen))
 	c.Set("checker_cmd", "tlc MC_Methods (INVARIANT Laws, Vec); replay through lang.EvalProgram in worker subprocesses")
